@@ -108,6 +108,25 @@ impl ByteArena {
         anchor::NUM_LIVE_BYTES.load(Ordering::Relaxed)
     }
 
+    /// Verification hook: `(chunk start, bump, chunk end)` of the allocation cache, if any.
+    #[cfg(woodpile_verif)]
+    #[doc(hidden)]
+    pub fn verif_cache(&self) -> Option<(usize, usize, usize)> {
+        self.cache.as_ref().map(|c| c.verif_view())
+    }
+
+    /// Verification hook: address ranges of all live chunks in the process.
+    #[cfg(woodpile_verif)]
+    #[doc(hidden)]
+    pub fn verif_live_ranges() -> Vec<(usize, usize)> {
+        anchor::VERIF_LIVE_RANGES
+            .lock()
+            .unwrap()
+            .iter()
+            .map(|(a, b)| (*a, *b))
+            .collect()
+    }
+
     /// Flushes the arena's internal allocation cache.
     #[inline(never)] // The destructor can turn into a lot of code.
     pub fn flush_cache(&mut self) {
@@ -342,6 +361,13 @@ impl ByteArena {
 }
 
 impl AnchoredSlice {
+    /// Verification hook: start address of the chunk that keeps this slice alive (0 if none).
+    #[cfg(woodpile_verif)]
+    #[doc(hidden)]
+    pub fn verif_chunk(&self) -> usize {
+        self.anchor.verif_chunk()
+    }
+
     /// Returns the anchored data.
     #[must_use]
     #[inline(always)]
